@@ -165,7 +165,8 @@ def handle (line : String) : String :=
     | none => "bad-op"
   | ["tbl"] =>
     "E" ++ showLines showCps Generated.lineEndings ++ " L" ++ showCps Generated.lstripSet
-      ++ " R" ++ showCps Generated.rstripSet
+      ++ " R" ++ showCps Generated.rstripSet ++ " S" ++ showCps Generated.strBreakSet
+      ++ " B" ++ showCps Generated.bytesBreakSet
   | _ => "bad-op"
 
 end C19.Driver
